@@ -1,6 +1,6 @@
 (* Proofs/C20_proofs.v -- lemmas for property C20 (remote-write client and handler). *)
 From Coq Require Import Strings.String.
-From Coq Require Import ZArith List Bool Arith Lia.
+From Coq Require Import ZArith List Bool Arith Lia Permutation.
 From Verif Require Import Base.Str Proofs.Str_facts Model.RemoteWrite.
 Import ListNotations.
 Open Scope string_scope.
@@ -1445,3 +1445,41 @@ Proof.
   - intros E. rewrite E in H4. simpl in H4. destruct (rev seen) as [|last tl]; [discriminate|].
     apply andb_true_iff in H4. destruct H4 as [H4 _]. exists last, tl. auto.
 Qed.
+
+(* ================= API options: the order in which they are given does not matter ================= *)
+Lemma apply_option_comm c x y :
+  (forall a b d a' b' d', x = OBackoff a b d -> y = OBackoff a' b' d' -> (a, b, d) = (a', b', d')) ->
+  apply_option (apply_option c x) y = apply_option (apply_option c y) x.
+Proof.
+  intros H. destruct x as [a b d|], y as [a' b' d'|]; simpl; try reflexivity.
+  specialize (H a b d a' b' d' eq_refl eq_refl). inversion H. reflexivity.
+Qed.
+
+Lemma one_backoff_perm l l' : Permutation l l' -> one_backoff l -> one_backoff l'.
+Proof.
+  intros P H a b c a' b' c' I1 I2. apply (H a b c a' b' c'); eapply Permutation_in; try apply Permutation_sym; eassumption.
+Qed.
+
+Lemma fold_options_perm l l' :
+  Permutation l l' -> one_backoff l -> forall c, fold_left apply_option l c = fold_left apply_option l' c.
+Proof.
+  induction 1 as [|x l l' P IH|x y l|l l' l'' P1 IH1 P2 IH2]; intros H c.
+  - reflexivity.
+  - simpl. apply IH. intros a b d a' b' d' I1 I2. apply (H a b d a' b' d'); right; assumption.
+  - simpl. f_equal. apply apply_option_comm.
+    intros a b d a' b' d' -> ->. apply (H a b d a' b' d'); simpl; auto.
+  - rewrite IH1 by assumption. apply IH2. apply (one_backoff_perm _ _ P1 H).
+Qed.
+
+Lemma options_order_insensitive_lemma l l' :
+  Permutation l l' -> one_backoff l -> apply_options l = apply_options l'.
+Proof. intros P H. apply fold_options_perm; assumption. Qed.
+
+(* what the option set amounts to *)
+Lemma options_meaning_lemma mn mx mr :
+  apply_options [] = default_cfg /\
+  apply_options [ONoRetry429] = mkCfg (c_min default_cfg) (c_max default_cfg) (c_max_retries default_cfg) false /\
+  apply_options [OBackoff mn mx mr] = mkCfg mn mx mr true /\
+  apply_options [ONoRetry429; OBackoff mn mx mr] = mkCfg mn mx mr false /\
+  apply_options [OBackoff mn mx mr; ONoRetry429] = mkCfg mn mx mr false.
+Proof. repeat split; reflexivity. Qed.
